@@ -203,6 +203,9 @@ def run_one(t):
         f["ck"] = CK_TYPES[t.choose(2, "crc type")]
     if sc in ("checksum_ack", "checksum_unack", "nak_limit", "check_dst", "size_error"):
         f["size_sel"] = [0, 6, 7, 5][t.choose(4, "size")]
+    if sc == "fs_reject":
+        # incl. empty files: with nothing to receive, completion is decided in the very call that declares the rejection
+        f["size_sel"] = [0, 3, 1, 6][t.choose(4, "size")]
     cfg = Cfg.draw(t, f)
     cfg.ind_a |= 8
     cfg.ind_b |= 8
